@@ -142,10 +142,7 @@ namespace AIToolbox {
 
         std::optional<Vector> solution;
 
-        // ACCURACYERROR: lp_solve found the optimal basis, but its final accuracy
-        // check is above break_numeric_accuracy (5e-7, see getPrecision()); the
-        // solution is still the one of that basis.
-        if ( result == OPTIMAL || result == SUBOPTIMAL || result == ACCURACYERROR )
+        if ( result == 0 || result == 1 )
             solution = Eigen::Map<Vector>(vp, variables);
 
         return solution;
